@@ -10,6 +10,11 @@ function is rewritten, one transformation at a time, by an ast.NodeTransformer t
   rettemp       `return E` -> `_rv = E; return _rv`
   augexpand     `x += e` -> `x = x + e` for plain names
   chainsplit    `a <= x < b` -> `a <= x and x < b` when x is a plain name
+  condtemp      `if <compare>:` -> `_c = <compare>; if _c:`
+  elsewrap      `if c: ...raise` + rest of block -> `if c: ...raise else: rest`
+  notcmp        `if a < b:` -> `if not a >= b:`
+  splitand      `if a and b: S` -> `if a: if b: S`
+  swapindep     two adjacent call-free independent assignments swapped
 
 The owning property's rules are run on each variant (in memory, Repo(overrides=...)).  A variant on which a rule
 reports a violation is a FALSE ALARM of the checker; a variant on which a rule becomes undecided (exit 2) is counted
@@ -25,7 +30,7 @@ ROOT = os.path.dirname(os.path.dirname(os.path.abspath(__file__)))
 if ROOT not in sys.path:
     sys.path.insert(0, ROOT)
 
-KINDS = ["identity", "rename", "cmpflip", "ifswap", "rettemp", "augexpand", "chainsplit"]
+KINDS = ["identity", "rename", "cmpflip", "ifswap", "rettemp", "augexpand", "chainsplit", "condtemp", "elsewrap", "notcmp", "splitand", "swapindep"]
 
 
 def _pure(e):
@@ -156,6 +161,128 @@ class ChainSplit(ast.NodeTransformer):
         return n
 
 
+_NEG = {ast.Lt: ast.GtE, ast.GtE: ast.Lt, ast.Gt: ast.LtE, ast.LtE: ast.Gt, ast.Eq: ast.NotEq, ast.NotEq: ast.Eq, ast.Is: ast.IsNot, ast.IsNot: ast.Is,
+        ast.In: ast.NotIn, ast.NotIn: ast.In}
+
+
+def _terminates(body):
+    return bool(body) and isinstance(body[-1], (ast.Return, ast.Raise, ast.Continue, ast.Break))
+
+
+class _BlockRewriter(ast.NodeTransformer):
+    """base for statement-list rewrites (function body and every nested block, nested defs excluded)"""
+    changed = 0
+
+    def rewrite(self, stmts):
+        return stmts
+
+    def generic_visit(self, node):
+        super().generic_visit(node)
+        for f in ("body", "orelse", "finalbody"):
+            v = getattr(node, f, None)
+            if isinstance(v, list) and v and isinstance(v[0], ast.stmt):
+                setattr(node, f, self.rewrite(v))
+        if isinstance(node, ast.Try):
+            for h in node.handlers:
+                h.body = self.rewrite(h.body)
+        return node
+
+    def visit_FunctionDef(self, node):
+        if getattr(self, "_top", None) is None:
+            self._top = node
+            return self.generic_visit(node)
+        return node
+
+    def visit_Lambda(self, node):
+        return node
+
+
+class CondTemp(_BlockRewriter):
+    """`if <compare>: ...` -> `_c = <compare>; if _c: ...` (first level of each block, plain if without elif chain above)"""
+
+    def rewrite(self, stmts):
+        out = []
+        for s in stmts:
+            if isinstance(s, ast.If) and isinstance(s.test, ast.Compare) and _pure(s.test):
+                self.changed += 1
+                out.append(ast.copy_location(ast.Assign(targets=[ast.Name(id="_c", ctx=ast.Store())], value=s.test, lineno=s.lineno), s))
+                out.append(ast.copy_location(ast.If(test=ast.Name(id="_c", ctx=ast.Load()), body=s.body, orelse=s.orelse), s))
+            else:
+                out.append(s)
+        return out
+
+
+class ElseWrap(_BlockRewriter):
+    """`if c: ...raise/return` followed by the rest of the block -> `if c: ... else: <rest>`"""
+
+    def rewrite(self, stmts):
+        for i, s in enumerate(stmts):
+            if isinstance(s, ast.If) and not s.orelse and _terminates(s.body) and i + 1 < len(stmts):
+                self.changed += 1
+                return stmts[:i] + [ast.copy_location(ast.If(test=s.test, body=s.body, orelse=stmts[i + 1:]), s)]
+        return stmts
+
+
+class NotCmp(ast.NodeTransformer):
+    """`a < b` -> `not a >= b` inside if/while tests (operands pure)"""
+    changed = 0
+
+    def _neg(self, t):
+        if isinstance(t, ast.Compare) and len(t.ops) == 1 and type(t.ops[0]) in _NEG and _pure(t):
+            self.changed += 1
+            return ast.copy_location(ast.UnaryOp(op=ast.Not(), operand=ast.Compare(left=t.left, ops=[_NEG[type(t.ops[0])]()], comparators=t.comparators)), t)
+        return t
+
+    def visit_If(self, n):
+        self.generic_visit(n)
+        n.test = self._neg(n.test)
+        return n
+
+
+class SplitAnd(_BlockRewriter):
+    """`if a and b: S` (no else) -> `if a: if b: S`"""
+
+    def rewrite(self, stmts):
+        out = []
+        for s in stmts:
+            if isinstance(s, ast.If) and not s.orelse and isinstance(s.test, ast.BoolOp) and isinstance(s.test.op, ast.And) and len(s.test.values) == 2:
+                self.changed += 1
+                inner = ast.copy_location(ast.If(test=s.test.values[1], body=s.body, orelse=[]), s)
+                out.append(ast.copy_location(ast.If(test=s.test.values[0], body=[inner], orelse=[]), s))
+            else:
+                out.append(s)
+        return out
+
+
+def _names_rw(s):
+    r, w = set(), set()
+    for n in ast.walk(s):
+        if isinstance(n, ast.Name):
+            (w if isinstance(n.ctx, ast.Store) else r).add(n.id)
+    return r, w
+
+
+class SwapIndep(_BlockRewriter):
+    """swap two adjacent simple assignments to plain names when neither reads or writes what the other writes and
+    neither contains a call (so evaluation order cannot matter)"""
+
+    def rewrite(self, stmts):
+        out = list(stmts)
+        i = 0
+        while i + 1 < len(out):
+            a, b = out[i], out[i + 1]
+            if all(isinstance(x, ast.Assign) and len(x.targets) == 1 and isinstance(x.targets[0], ast.Name) and not any(isinstance(c, ast.Call) for c in ast.walk(x)) for x in (a, b)):
+                ra, wa = _names_rw(a)
+                rb, wb = _names_rw(b)
+                if not (wa & (rb | wb)) and not (wb & ra):
+                    out[i], out[i + 1] = b, a
+                    self.changed += 1
+                    i += 2
+                    continue
+            i += 1
+        return out
+
+
 def transform(text, fname, lineno, kind):
     """returns new module text or None when the transformation does not apply"""
     tree = ast.parse(text)
@@ -176,8 +303,9 @@ def transform(text, fname, lineno, kind):
             target.body[i] = t.visit(s)
         changed = t.changed
     else:
-        t = {"cmpflip": CmpFlip, "ifswap": IfSwap, "rettemp": RetTemp, "augexpand": AugExpand, "chainsplit": ChainSplit}[kind]()
-        if kind == "rettemp":
+        t = {"cmpflip": CmpFlip, "ifswap": IfSwap, "rettemp": RetTemp, "augexpand": AugExpand, "chainsplit": ChainSplit, "condtemp": CondTemp,
+             "elsewrap": ElseWrap, "notcmp": NotCmp, "splitand": SplitAnd, "swapindep": SwapIndep}[kind]()
+        if kind in ("rettemp", "condtemp", "elsewrap", "splitand", "swapindep"):
             t.visit(target)
         else:
             for i, s in enumerate(target.body):
